@@ -283,8 +283,58 @@ func c15registeredUnion(c *core.Ctx) {
 	c.Count("registered-union-scenarios-ok", 1)
 }
 
+// registered types of every Go kind: the registry is consulted before the kind is looked at
+type c15RawK []byte
+type c15StrK string
+type c15IntK int64
+type c15FloatK float32
+type c15BoolK bool
+type c15IDsK []int64
+type c15AttrsK map[string]string
+type c15ArrK [4]int32
+type c15PtrHolderK struct{ P *int }
+
+func c15registeredKinds(c *core.Ctx) {
+	for gen := 1; gen <= 2; gen++ {
+		for _, x := range []any{c15RawK(nil), c15StrK(""), c15IntK(0), c15FloatK(0), c15BoolK(false), c15IDsK(nil), c15AttrsK(nil), c15ArrK{}, c15PtrHolderK{}} {
+			k := reflect.TypeOf(x)
+			tag := fmt.Sprintf("c15-kind-%s-%d", k.Name(), gen)
+			base := []string{"string", "long", "bytes", "double"}[(len(k.Name())+gen)%4]
+			avro.RegisterSchema(k, avro.Schema{Type: base, Object: &avro.SchemaObject{LogicalType: tag}})
+			holder := reflect.StructOf([]reflect.StructField{
+				{Name: "A", Type: k, Tag: `json:"a"`}, {Name: "P", Type: reflect.PointerTo(k), Tag: `json:"p"`}, {Name: "S", Type: reflect.SliceOf(k), Tag: `json:"s"`},
+				{Name: "M", Type: reflect.MapOf(reflect.TypeOf(""), k), Tag: `json:"m"`}, {Name: "O", Type: k, Tag: `json:"o,omitempty"`}, {Name: "PO", Type: reflect.PointerTo(k), Tag: `json:"po,omitempty"`},
+				{Name: "SP", Type: reflect.SliceOf(reflect.PointerTo(k)), Tag: `json:"sp"`},
+			})
+			c.Eval(1)
+			ls, err := avro.SchemaForType(reflect.New(holder).Elem().Interface())
+			if err != nil {
+				c.Violate("registered", fmt.Sprintf("SchemaForType refuses a struct whose fields use %s (kind %s), which has a registered schema: %v", k, k.Kind(), err), nil)
+				return
+			}
+			ir := libToIR(ls)
+			isReg := func(s *refavro.Schema) bool { return s != nil && s.Type == base && s.LogicalType == tag }
+			nullable := func(s *refavro.Schema) bool {
+				return s.Type == "union" && len(s.Branches) == 2 && s.Branches[0].Type == "null" && isReg(s.Branches[1])
+			}
+			f := map[string]*refavro.Schema{}
+			for _, fl := range ir.Fields {
+				f[fl.Name] = fl.Type
+			}
+			ok := len(ir.Fields) == 7 && isReg(f["a"]) && nullable(f["p"]) && f["s"].Type == "array" && isReg(f["s"].Items) && f["m"].Type == "map" && isReg(f["m"].Values) &&
+				nullable(f["o"]) && nullable(f["po"]) && f["sp"].Type == "array" && nullable(f["sp"].Items)
+			if !ok {
+				c.Violate("registered", fmt.Sprintf("type %s (kind %s) has the registered schema %s/%s, but schema generation does not emit it in every position (field, pointer, slice item, map value, omitempty, pointer+omitempty, slice of pointers): %s", k, k.Kind(), base, tag, ir.JSON()), nil)
+				return
+			}
+			c.Count("registered-kind-scenarios-ok", 1)
+		}
+	}
+}
+
 func c15registration(c *core.Ctx) {
 	c15registeredUnion(c)
+	c15registeredKinds(c)
 	get := func() *refavro.Schema {
 		s, err := avro.SchemaForType(c15Outer{})
 		if err != nil {
